@@ -152,7 +152,7 @@ class Analysis:
         if case.returns is not None and not S.crashed:
             spec = parse_spec(case.returns)
             for ln, text, v, orgs, vias in S.returns:
-                why = conforms(v, spec)
+                why = conforms(v, spec, fresh=not orgs)
                 if why:
                     bad.append((ln, f'{fi.where(ln)}: `{text}` computes {v!r}, not covered by the declared result '
                                     f'descriptor {case.returns!r} ({why})'))
@@ -291,6 +291,28 @@ class Analysis:
                     self._add(prop, f'frames.{prop}.{key}.contract-target', 'contract-target', None, 'unsupported',
                               f'declared contract for {key}, but the function is not in the tree', '')
 
+    def unreached(self):
+        """statements no contract case reaches (pruned by the fixed service flags or dead): listed, not verified"""
+        import ast
+        out = {}
+        for fi in self.functions:
+            ct = self.contracts[fi.key]
+            if ct.excluded:
+                continue
+            seen = set()
+            for c in ct.cases:
+                S = self.summaries.get((fi.key, c.name))
+                if S is not None:
+                    seen |= S.visited
+            miss = []
+            for st in fi.body:
+                for n in ast.walk(st):
+                    if isinstance(n, ast.stmt) and id(n) not in seen:
+                        miss.append(n.lineno)
+            if miss:
+                out[fi.key] = sorted(set(miss))
+        return out
+
     # ---- reporting
     def meta(self):
         funcs = []
@@ -319,6 +341,7 @@ class Analysis:
             'excluded_functions': {k: c.excluded for k, c in sorted(self.contracts.items()) if c.excluded},
             'declared_deviations': dev,
             'functions_with_default_contract': sorted(self.undeclared),
+            'unreached_statements': self.unreached(),
             'callbacks_assumed_pure': sorted({f'{k[0]}:{p}' for k, S in self.summaries.items() for p in S.callbacks}),
             'seconds': round(self.seconds, 2),
         }
@@ -338,10 +361,17 @@ def dedup(items):
     return out
 
 
-def conforms(v, spec):
-    """'' if the computed value v is covered by the declared descriptor, else a reason."""
+def conforms(v, spec, fresh=False):
+    """'' if the computed value v is covered by the declared descriptor, else a reason.
+
+    A declared `num` tolerates a computed fresh ndarray (0-d / 1-element results of harmless rewrites): a caller
+    that indexes with such a value assumes a basic index (view) where NumPy would copy, which is the safe side."""
     if v.bot:
         return ''
+    if fresh and v.may('arr') and not v.objarr:
+        sk = spec_kinds(spec) if (spec.alts or spec.name not in (None, 'any', 'fresh')) else ALLK
+        if 'num' in sk and 'arr' not in sk and not v.is_any:
+            v = v.but(kinds=(v.kinds - {'arr'}) | {'num'}, ndim=None)
     if spec.alts:
         # each kind of v must be admitted by some alternative
         kinds = set()
@@ -366,7 +396,7 @@ def conforms(v, spec):
         if v.items is None or len(v.items) != len(spec.args) or v.elem is not None:
             return 'tuple layout unknown'
         for i, (iv, s) in enumerate(zip(v.items, spec.args)):
-            w = conforms(iv, s)
+            w = conforms(iv, s, fresh)
             if w:
                 return f'item {i}: {w}'
     if n in ('arr0', 'arr1', 'arr2', 'arr3', 'arr4') and v.ndim != int(n[3]):
@@ -400,10 +430,12 @@ def run(U, prop):
         U.direct(o['kind'], o['id'], o['status'], o['detail'], o['where'])
     if hasattr(U, 'add_meta'):
         m = A.meta()
-        U.add_meta(frames={'functions': m['functions'], 'models_used': m['models_used'],
-                           'assumptions': m['assumptions'], 'excluded_service_flags': m['excluded_service_flags'],
+        U.add_meta(functions=m['functions'], models_used=['frames: ' + x for x in m['models_used']],
+                   frames={'assumptions': m['assumptions'], 'excluded_service_flags': m['excluded_service_flags'],
                            'excluded_functions': m['excluded_functions'],
-                           'declared_deviations': m['declared_deviations'], 'seconds': m['seconds']})
+                           'declared_deviations': m['declared_deviations'],
+                           'unreached_statements': m['unreached_statements'],
+                           'callbacks_assumed_pure': m['callbacks_assumed_pure'], 'seconds': m['seconds']})
 
 
 def main(argv):
